@@ -359,7 +359,7 @@ def oracle(ctx, volume=1):
         {"theorem": "partition_independent_partial / reest_reproduces_partial",
          "missing": "tasks / estimates whose result depends on the state of a shared loss / algorithm object (hypothesis of the theorems; counter-examples partition_independent_fails and the example after reest_reproduces_partial)"},
         {"theorem": "depol_convex_physical_partial",
-         "missing": "convexity for states on abstract matrices only; physicality of depolarised gates / POVMs / measurement processes and of random-Lindbladian objects is observed by the oracle (is_physical of every generated object), not proved"},
+         "missing": "equality constraints of all four object types: depol_preserves_equality_constraint; positivity: convexity for states on abstract matrices only; physicality of depolarised gates / POVMs / measurement processes and of random-Lindbladian objects is observed by the oracle (is_physical of every generated object), not proved"},
         {"theorem": "reps_distinct_streams",
          "missing": "the generator not repeating within n segments from the actual start state is assumed (MT19937 quality)"},
         {"theorem": "flow_streams_distinct", "missing": "distinctness of the generators seeded with the n spawned children is assumed (observed on numpy by seed_clause)"},
